@@ -509,6 +509,38 @@ def real_acq_check(alg, name, pre_model, pre, post, calls, cfg, add, res):
     core.bump(res, "c07_real_argmax_checked")
 
 
+def thompson_check(alg, pre_model, rng_state, calls, cfg, add, res, spec):
+    """DecoupledGP (batch 1): restore the torch generator to its pre-step state, recompute the Thompson
+    entropy value table with the REAL acquisition on the pre-step model copy (it must reproduce the
+    decision-time table because the same generator state drives the same posterior samples) and check
+    that the requested (design, objective) pair is a maximiser of value/cost."""
+    import torch
+    from vopy.acquisition import ThompsonEntropyDecoupledAcquisition
+
+    keep = torch.get_rng_state()
+    torch.set_rng_state(rng_state)
+    try:
+        acq = ThompsonEntropyDecoupledAcquisition(pre_model, order=cones.make_order(spec), costs=np.array(cfg.get("costs", [1.0, 1.0])))
+        table = []
+        for o in range(pre_model.output_dim):
+            acq.evaluation_index = o
+            table.append(np.asarray(acq(alg.points)).copy())
+        table = np.array(table).T  # (designs, objectives)
+    finally:
+        torch.set_rng_state(keep)
+    c = calls[0]
+    x = np.atleast_2d(c["x"])[0]
+    d = int(np.argmin(np.max(np.abs(alg.points - x), axis=1)))
+    idx = c["args"][0]
+    o = int(idx) if np.ndim(idx) == 0 else int(np.asarray(idx)[0])
+    best = float(table.max())
+    if table[d, o] < best - 1e-12:
+        add("not-acquisition-maximiser", best, float(table[d, o]),
+            f"DecoupledGP requested (design {d}, objective {o}) with information gain/cost {table[d, o]:.6g}; the maximum over (design, objective) pairs is {best:.6g}")
+    else:
+        core.bump(res, "c07_thompson_argmax_checked")
+
+
 def run_real(unit, res, replay=None):
     """real models; observation menu explored exhaustively to depth D (scripted problem), then the
     fixed-generator noisy continuation"""
@@ -546,7 +578,8 @@ def run_real(unit, res, replay=None):
             pre = stepmc.snapshot(alg) if hasattr(alg, "S") else {"S": frozenset(), "P": frozenset(), "U": frozenset(), "round": alg.round, "sample_count": alg.sample_count,
                                                                  **({"total_cost": float(alg.total_cost)} if hasattr(alg, "total_cost") else {})}
             pre_data = model_data(alg)
-            pre_model = copy.deepcopy(alg.model) if (prop == "C07" and hasattr(alg, "model") and alg_name.startswith(("PaVeBaGP", "PartialGP"))) else None
+            pre_model = copy.deepcopy(alg.model) if (prop == "C07" and hasattr(alg, "model") and alg_name.startswith(("PaVeBaGP", "PartialGP", "Decoupled"))) else None
+            rng_state = torch.get_rng_state() if (prop == "C07" and alg_name == "Decoupled") else None
             alg.problem.calls = []
 
             def add(kind, want, got, msg, _alg=alg_name, _case=case):
@@ -612,6 +645,8 @@ def run_real(unit, res, replay=None):
             else:
                 check_model_growth(pre_data, model_data(alg), calls, alg, add)
                 real_acq_check(alg, alg_name, pre_model, pre, post, calls, cfg, add, res)
+                if alg_name == "Decoupled" and cfg.get("batch_size", 1) == 1 and calls:
+                    thompson_check(alg, pre_model, rng_state, calls, cfg, add, res, spec)
                 core.bump(res, "c07_real_steps_checked")
             if done:
                 break
